@@ -845,7 +845,8 @@ def with_own_constructor(cls):
     return lambda fp: sub(fp, 'a source')
 
 
-def make_reader(cls, stream, late_rewind=False, world=None, own_ctor=False):
+def make_reader(cls, stream, late_rewind=False, world=None, own_ctor=False,
+                probe=False, prior=None):
     """late_rewind: the reader object is created while the stream is
     positioned elsewhere (at its end, as right after filling a buffer) and
     the stream is only then moved to where the DiffX data starts; nothing is
@@ -856,6 +857,32 @@ def make_reader(cls, stream, late_rewind=False, world=None, own_ctor=False):
 
     if world is not None:
         world.readers_made = n
+
+    if isinstance(prior, int) and prior > 0 and hasattr(stream, 'tell') \
+       and hasattr(stream, 'seek'):
+        # an earlier, throw-away reader on the same stream (a peek at the
+        # first records), dropped and collected before the stream is moved
+        # back: the stream is the caller's, and stays usable
+        import gc
+
+        try:
+            start = stream.tell()
+            tmp = iter(cls(stream))
+
+            try:
+                for _ in range(prior):
+                    next(tmp)
+            except (SimEventCap, SimHang):
+                raise
+            except Exception:
+                pass
+
+            del tmp
+            gc.collect()
+            stream.seek(start)
+        except (OSError, ValueError) as e:
+            if 'closed' in str(e):
+                raise
 
     if own_ctor:
         cls = with_own_constructor(cls)
@@ -873,6 +900,16 @@ def make_reader(cls, stream, late_rewind=False, world=None, own_ctor=False):
             pass
 
     rd = cls(stream)
+
+    if probe:
+        # "is it iterable?": iterators asked for and never advanced (nothing
+        # is read before an iteration begins, so this must not matter)
+        iter(rd)
+        m = getattr(rd, 'iter_sections', None)
+
+        if m is not None:
+            m()
+
     return _ViaIterSections(rd) if via else rd
 
 
@@ -951,10 +988,25 @@ class ReaderActor(Actor):
                 self.shadow.step()
                 self.shadow.step()
 
-            self.it = iter(make_reader(cls, self.stream,
-                                       bool(self.spec.get('late_rewind')),
-                                       world,
-                                       bool(self.spec.get('own_ctor'))))
+            try:
+                self.it = iter(make_reader(
+                    cls, self.stream, bool(self.spec.get('late_rewind')),
+                    world, bool(self.spec.get('own_ctor')),
+                    bool(self.spec.get('probe_iter')),
+                    self.spec.get('prior_reader')))
+            except (SimEventCap, SimHang):
+                raise
+            except Exception as e:
+                # constructing a reader reads nothing: whatever goes wrong
+                # here is the reader's doing, and is judged like a failing
+                # read
+                self.it = iter(())
+                self.end = 'raise'
+                self.exc = e
+                self.exc_info = exc_summary(e, L)
+                self.done = True
+                world.ev(self.id, 'raise', self.exc_info['type'], None)
+
             return
 
         if self.spec.get('follow'):
@@ -1042,7 +1094,9 @@ def read_all(world, data, block_size=None, stream='sim', buf=None,
     try:
         for rec in alternately(make_reader(
                 cls, st, late_rewind, world,
-                bool((extras or {}).get('own_ctor')))):
+                bool((extras or {}).get('own_ctor')),
+                bool((extras or {}).get('probe_iter')),
+                (extras or {}).get('prior_reader'))):
             if mutate:
                 recs.append(copy.deepcopy(rec))
                 consumer_mutates(rec, mutate)
